@@ -47,6 +47,9 @@ pub enum Extreme {
     CountMin { ty: u8, seed: u64 },
     /// every accessor on empty sketches of every family
     Empty { lg: u8 },
+    /// an out-of-order HLL array whose raw estimate alpha k^2 / sum(2^-r) is steered to 16 k (1 - eps_ppm / 10^6),
+    /// i.e. just below / at / above the top of the composite estimator's interpolation table
+    HllTableTop { lg_k: u8, eps_ppm: i32, ty: u8 },
 }
 
 fn extreme_strategy(thorough: bool) -> impl Strategy<Value = Extreme> {
@@ -61,6 +64,7 @@ fn extreme_strategy(thorough: bool) -> impl Strategy<Value = Extreme> {
         2 => (0u8..6, any::<u64>()).prop_map(|(which, seed)| Extreme::Bloom { which, seed }),
         2 => (0u8..8, any::<u64>()).prop_map(|(ty, seed)| Extreme::CountMin { ty, seed }),
         1 => (4u8..=26).prop_map(|lg| Extreme::Empty { lg }),
+        3 => (4u8..=12, prop_oneof![-50i32..=600, -5i32..=120], 0u8..3).prop_map(|(lg_k, eps_ppm, ty)| Extreme::HllTableTop { lg_k, eps_ppm, ty }),
     ]
 }
 
@@ -381,6 +385,52 @@ fn run_extreme(c: &Extreme, info: &mut CaseInfo) -> Result<(), Fail> {
                 CountMinSketch::<u64>::suggest_num_hashes(1.0),
                 CountMinSketch::<u64>::suggest_num_hashes(0.999999),
             );
+        }
+        Extreme::HllTableTop { lg_k, eps_ppm, ty } => {
+            info.label("hll_raw_estimate_at_table_top");
+            let k = 1usize << lg_k;
+            let alpha = match k {
+                16 => 0.673,
+                32 => 0.697,
+                64 => 0.709,
+                _ => 0.7213 / (1.0 + 1.079 / k as f64),
+            };
+            let raw = 16.0 * k as f64 * (1.0 - *eps_ppm as f64 * 1e-6);
+            let target = alpha * (k * k) as f64 / raw;
+            // k inverse powers of two (register values 1..=60) summing to the target: binary expansion, then
+            // split terms (2^-r = 2 * 2^-(r+1)) until there are k of them
+            let mut regs: Vec<u8> = vec![];
+            let mut rest = target;
+            for r in 1..=50u8 {
+                let t = (-(r as f64)).exp2();
+                while rest >= t && regs.len() < k {
+                    regs.push(r);
+                    rest -= t;
+                }
+            }
+            regs.sort_unstable();
+            while regs.len() < k {
+                let r = regs.remove(0);
+                if r >= 60 {
+                    regs.insert(0, r);
+                    break;
+                }
+                regs.push(r + 1);
+                regs.push(r + 1);
+                regs.sort_unstable();
+            }
+            if regs.len() == k {
+                let mut s = HllSketch::new(*lg_k, [HllType::Hll4, HllType::Hll6, HllType::Hll8][(*ty % 3) as usize]);
+                for (slot, r) in regs.iter().enumerate() {
+                    s.verif_update_with_coupon(((*r as u32) << 26) | slot as u32);
+                }
+                let mut u = HllUnion::new(*lg_k);
+                u.update(&s);
+                let _ = (u.estimate(), u.lower_bound(NumStdDev::Two), u.upper_bound(NumStdDev::Two));
+                for t in [HllType::Hll4, HllType::Hll6, HllType::Hll8] {
+                    touch_hll(&u.to_sketch(t));
+                }
+            }
         }
         Extreme::Empty { lg } => {
             info.label("empty_sketches");
